@@ -36,6 +36,8 @@ fn main() {
         ["gen", "edit"] => edit::gen(&args),
         ["gen", "step"] => cfr::gen_step(&args),
         ["replay", "step"] => cfr::replay_step(&args),
+        ["gen", "run"] => cfr::gen_run(&args),
+        ["replay", "run"] => cfr::replay_run(&args),
         other => {
             eprintln!("unknown command {other:?}");
             std::process::exit(2);
